@@ -19,13 +19,18 @@ REPLICAS = ['py', 'pycmio', 'c', 'ccmio']
 def init():
     lockstep.init()
 
-N_FRAMES = {'quick': 1600, 'thorough': frames.total('thorough')}
+N_FRAMES = {'quick': 700, 'thorough': frames.total('thorough')}
 
 def gen(rng, tier, index):
+    # frame sweeps first: the edges of the contended part of the frame for every template and variant (both tiers), then
+    # whole-frame chunks: thorough enumerates every (template, variant, chunk); quick draws a seeded subset
+    if index < frames.n_edge():
+        return frames.edge_scenario(index)
+    index -= frames.n_edge()
     if index < N_FRAMES[tier]:
-        # frame sweeps first: thorough enumerates every (template, variant, chunk); quick draws a seeded subset
         k = index if tier == 'thorough' else rng.randrange(frames.total(tier))
         return frames.scenario(k)
+    index -= N_FRAMES[tier]
     if index % 8 < 7:
         scn = gen_lock.gen_wstep(rng, tier, index // 8 * 7 + index % 8, REPLICAS)
     else:
@@ -58,12 +63,7 @@ def sample(scn, res):
 
 def shrink_candidates(scn):
     if scn['kind'] == 'frames':
-        # narrow the T range
-        lo, hi = scn['t_lo'], scn['t_hi']
-        if hi - lo > 1:
-            mid = (lo + hi) // 2
-            yield dict(scn, t_hi=mid)
-            yield dict(scn, t_lo=mid)
+        yield from frames.shrink(scn)
         return
     yield from gen_lock.shrink_candidates(scn)
 
